@@ -351,7 +351,64 @@ def run_area(ctx, name, area, exact):
     check("image_quick", "image.ImageContainerQuick.resample", np.asarray(qx), np.asarray(qy), qcells, "lsc")
 
 
+def run_quick_linesample(ctx):
+    """utils.generate_quick_linesample_arrays (with its uint16 down-cast) + get_image_from_linesample /
+    ImageContainer.get_array_from_linesample, for axis lengths around the uint8/uint16 limits"""
+    from pyproj import Proj
+    from pyresample import geometry, grid, image, utils
+    sizes = [(3, 2), (255, 2), (256, 3), (65535, 2), (65536, 2), (65537, 2), (2, 65536), (2, 65535)]
+    if not ctx.quick:
+        sizes += [(2, 65537), (65534, 1), (1, 65536), (70000, 2)]
+    for W, H in sizes:
+        dx = 2.0 ** -10 if W > 1000 else 0.5
+        dy = 2.0 ** -10 if H > 1000 else 0.5
+        x0, y1 = -32.0, 40.0
+        ext = (x0, y1 - H * dy, x0 + W * dx, y1)
+        with warnings.catch_warnings():
+            warnings.simplefilter("ignore")
+            src = geometry.AreaDefinition("s", "s", "s", {"proj": "longlat", "datum": "WGS84"}, W, H, ext)
+            case = Case(ctx, f"ll_{W}x{H}", src, True)
+            cellid = (np.arange(H * W, dtype=np.int64).reshape(H, W) + 1)
+            targets = [
+                ("upper_right", (ext[2] - 2.5 * dx, y1 - 1.25 * dy, ext[2] + 2.5 * dx, y1 + 1.25 * dy), 10, 5),
+                ("lower_left", (x0 - 1.75 * dx, ext[1] - 1.5 * dy, x0 + 1.25 * dx, ext[1] + 1.5 * dy), 6, 6),
+            ]
+            for tname, text, tw, th in targets:
+                tgt = geometry.AreaDefinition("t", "t", "t", src.crs, tw, th, text)
+                rows, cols = utils.generate_quick_linesample_arrays(src, tgt)
+                img = grid.get_image_from_linesample(rows, cols, cellid, 0)
+                ma = image.ImageContainer(cellid, src, fill_value=None).get_array_from_linesample(rows, cols)
+                tl, tla = tgt.get_lonlats()
+                px, py = Proj(**src.proj_dict)(tl, tla)
+                ds = case.model(np.asarray(px).ravel(), np.asarray(py).ravel()) if ctx.M else [None] * (tw * th)
+                mam = np.ma.getmaskarray(ma).ravel()
+                for i, (x, y, v, r_, c_, d) in enumerate(zip(np.asarray(px).ravel(), np.asarray(py).ravel(), img.ravel(),
+                                                          rows.ravel(), cols.ravel(), ds)):
+                    got = None if v == 0 else divmod(int(v) - 1, W)
+                    got_ma = None if mam[i] else divmod(int(np.ma.getdata(ma).ravel()[i]) - 1, W)
+                    inp = {"source_shape": [H, W], "source_extent": list(ext), "target": tname, "proj_x": float(x), "proj_y": float(y)}
+                    g0 = case.g
+                    fx = (Fraction(float(x)) - g0[0]) / (g0[2] - g0[0]) * W
+                    fy = (g0[3] - Fraction(float(y))) / (g0[3] - g0[1]) * H
+                    gx, gy = abs(fx - round(fx)), abs(fy - round(fy))
+                    amb = (0 < gx < GUARD) or (0 < gy < GUARD)
+                    for site, val in (("utils.generate_quick_linesample_arrays+get_image_from_linesample", got),
+                                      ("image.ImageContainer.get_array_from_linesample", got_ma)):
+                        if d is not None and not amb and val != _cell(d["qlsc"]):
+                            ctx.disagree("quick_linesample", {**inp, "site": site}, val, _cell(d["qlsc"]))
+                        if not amb:
+                            prob = _oracle(case, fx, fy, val, "quick linesample")
+                            if prob:
+                                first = val is not None and (val[0] == 0 or val[1] == 0)
+                                ctx.fail(site, prob, inp, {"cell": val, "row_index": int(r_), "col_index": int(c_)},
+                                         tags={"first_row_or_col": first}, size=10)
+                    ctx.case("quick_linesample", (W, H, tname, i), nontrivial=True,
+                             sample={"input": inp, "impl": got} if i == 0 else None)
+        ctx.count(f"quick_linesample.axis_{'le' if max(W, H) <= 65535 else 'gt'}_uint16")
+
+
 def run(ctx):
+    run_quick_linesample(ctx)
     for name, area, exact in _areas(ctx):
         run_area(ctx, name, area, exact)
         ctx.count("areas")
